@@ -1,4 +1,6 @@
 import SaVerif.Lemmas.Topo
+import SaVerif.Lemmas.TopoCycles
+import SaVerif.Lemmas.TopoCyclesComplete
 /-!
 # C19 — Dependency sorting is a correct topological order; cycles exactly reported
 
@@ -198,9 +200,207 @@ theorem subsets_independent (ts : List Edge) (items : List Node) (out : List (Li
 theorem sort_deterministic (ts : List Edge) (items : List Node) (o1 o2 : Option (List Node))
     (h1 : sort ts items = o1) (h2 : sort ts items = o2) : o1 = o2 := h1 ▸ h2
 
+/-! ## raises exactly when the dependencies among the items contain a cycle -/
+
+/-- the dependency relation induced on the items -/
+def Dep (ts : List Edge) (items : List Node) (a b : Node) : Prop :=
+  (a, b) ∈ ts ∧ a ∈ items ∧ b ∈ items
+
+/-- non-empty paths of a relation -/
+inductive Path (R : Node → Node → Prop) : Node → Node → Prop
+  | single {a b : Node} : R a b → Path R a b
+  | cons {a b c : Node} : R a b → Path R b c → Path R a c
+
+/-- some item lies on a directed cycle of dependencies among the items
+    (a self-dependency is a cycle of length one) -/
+def HasCycle (ts : List Edge) (items : List Node) : Prop :=
+  ∃ n, Path (Dep ts items) n n
+
+theorem Path.mono {R R' : Node → Node → Prop} (h : ∀ a b, R a b → R' a b) {a b : Node}
+    (p : Path R a b) : Path R' a b := by
+  induction p with
+  | single r => exact .single (h _ _ r)
+  | cons r _ ih => exact .cons (h _ _ r) ih
+
+theorem path_idx_lt (ts : List Edge) (items out : List Node) (h : sort ts items = some out)
+    {a b : Node} (p : Path (Dep ts items) a b) : out.idxOf a < out.idxOf b := by
+  induction p with
+  | single r => exact sort_respects ts items out _ _ h r.1 r.2.1 r.2.2
+  | cons r _ ih =>
+    have := sort_respects ts items out _ _ h r.1 r.2.1 r.2.2
+    omega
+
+/-- **sort_ok_acyclic**: if `sort` returns, the dependencies among the items are acyclic. -/
+theorem sort_ok_acyclic (ts : List Edge) (items out : List Node)
+    (h : sort ts items = some out) : ¬ HasCycle ts items := by
+  rintro ⟨n, p⟩
+  have := path_idx_lt ts items out h p
+  omega
+
+/-- when the loop gives up, it is stuck on a non-empty sub-list of the items in
+    which every node has a parent inside the sub-list -/
+theorem sortAux_none_stuck (ts : List Edge) :
+    ∀ (fuel : Nat) (todo : List Node), todo.length ≤ fuel → sortAux ts fuel todo = none →
+      ∃ S : List Node, S ≠ [] ∧ (∀ x ∈ S, x ∈ todo) ∧ layer ts S = [] := by
+  intro fuel
+  induction fuel with
+  | zero =>
+    intro todo hl h
+    have : todo = [] := List.eq_nil_of_length_eq_zero (by omega)
+    subst this
+    simp [sortAux] at h
+  | succ n ih =>
+    intro todo hl h
+    simp only [sortAux] at h
+    split at h
+    · cases h
+    · rename_i hne
+      split at h
+      · rename_i hlay
+        refine ⟨todo, ?_, fun x hx => hx, by simpa using hlay⟩
+        intro he; subst he; simp at hne
+      · rename_i hlay
+        split at h
+        · rename_i hrest
+          have hlt := remaining_length_lt (ts := ts) (todo := todo) (by simpa using hlay)
+          obtain ⟨S, hS, hsub, hstuck⟩ := ih _ (by omega) hrest
+          exact ⟨S, hS, fun x hx => (mem_remaining.1 (hsub x hx)).1, hstuck⟩
+        · cases h
+
+/-- pigeonhole walk: in a finite non-empty set where every node has a parent in
+    the set, following parents must close a cycle -/
+theorem walk_or_cycle (R : Node → Node → Prop) (S : List Node)
+    (hpar : ∀ y ∈ S, ∃ p ∈ S, R p y) (x : Node) (hx : x ∈ S) :
+    ∀ k : Nat, (∃ n, Path (fun a b => R a b ∧ a ∈ S ∧ b ∈ S) n n) ∨
+      ∃ (h : Node) (t : List Node), (h :: t).length = k + 1 ∧ (h :: t).Nodup ∧
+        (∀ y ∈ h :: t, y ∈ S) ∧ ∀ y ∈ t, Path (fun a b => R a b ∧ a ∈ S ∧ b ∈ S) h y := by
+  intro k
+  induction k with
+  | zero =>
+    right
+    exact ⟨x, [], by simp, by simp, by simpa using hx, by simp⟩
+  | succ k ih =>
+    rcases ih with hc | ⟨h, t, hlen, hnd, hsub, hpath⟩
+    · exact Or.inl hc
+    · have hhS : h ∈ S := hsub h (by simp)
+      obtain ⟨p, hpS, hph⟩ := hpar h hhS
+      have hR : (fun a b => R a b ∧ a ∈ S ∧ b ∈ S) p h := ⟨hph, hpS, hhS⟩
+      by_cases hpw : p ∈ h :: t
+      · left
+        rcases List.mem_cons.1 hpw with rfl | hpt
+        · exact ⟨p, .single hR⟩
+        · exact ⟨p, .cons hR (hpath p hpt)⟩
+      · right
+        refine ⟨p, h :: t, by simp at hlen ⊢; omega, List.nodup_cons.2 ⟨hpw, hnd⟩, ?_, ?_⟩
+        · intro y hy
+          rcases List.mem_cons.1 hy with rfl | hy
+          · exact hpS
+          · exact hsub y hy
+        · intro y hy
+          rcases List.mem_cons.1 hy with rfl | hy
+          · exact .single hR
+          · exact .cons hR (hpath y hy)
+
+theorem exists_cycle_of_all_have_parent (R : Node → Node → Prop) (S : List Node) (hS : S ≠ [])
+    (hpar : ∀ y ∈ S, ∃ p ∈ S, R p y) :
+    ∃ n, Path (fun a b => R a b ∧ a ∈ S ∧ b ∈ S) n n := by
+  obtain ⟨x, hx⟩ := List.exists_mem_of_ne_nil S hS
+  rcases walk_or_cycle R S hpar x hx S.length with hc | ⟨h, t, hlen, hnd, hsub, _⟩
+  · exact hc
+  · have := hnd.length_le_of_subset (l₂ := S) (fun y hy => hsub y hy)
+    omega
+
+/-- **sort_raises_cycle**: if `sort` raises CircularDependencyError, the
+    dependencies among the items contain a cycle. -/
+theorem sort_raises_cycle (ts : List Edge) (items : List Node)
+    (h : sort ts items = none) : HasCycle ts items := by
+  unfold sort sortAsSubsets at h
+  cases hs : sortAux ts items.length items with
+  | some o => rw [hs] at h; cases h
+  | none =>
+    obtain ⟨S, hS, hsub, hstuck⟩ := sortAux_none_stuck ts _ _ (Nat.le_refl _) hs
+    have hpar : ∀ y ∈ S, ∃ p ∈ S, (p, y) ∈ ts := by
+      intro y hy
+      have hnl : y ∉ layer ts S := by rw [hstuck]; simp
+      rw [mem_layer] at hnl
+      have : ¬ ∀ p, (p, y) ∈ ts → p ∉ S := fun hall => hnl ⟨hy, hall⟩
+      obtain ⟨p, hp⟩ := Classical.not_forall.1 this
+      have hp' := Classical.not_imp.1 hp
+      exact ⟨p, Classical.not_not.1 hp'.2, hp'.1⟩
+    obtain ⟨n, p⟩ := exists_cycle_of_all_have_parent (fun a b => (a, b) ∈ ts) S hS hpar
+    exact ⟨n, p.mono (fun a b r => ⟨r.1, hsub a r.2.1, hsub b r.2.2⟩)⟩
+
+/-- **sort_error_iff_cycle**: `sort` fails with a circular-dependency error
+    exactly when the dependencies among the items contain a cycle. -/
+theorem sort_error_iff_cycle (ts : List Edge) (items : List Node) :
+    sort ts items = none ↔ HasCycle ts items := by
+  constructor
+  · exact sort_raises_cycle ts items
+  · intro hc
+    cases h : sort ts items with
+    | none => rfl
+    | some out => exact absurd hc (sort_ok_acyclic ts items out h)
+
+/-! ## cycle detection
+
+Exactness: `x ∈ findCycles ts ↔ OnCycle ts x`.
+* soundness (`→`, `find_cycles_exact_partial`): cycle detection never reports a
+  node that is not on a cycle (invariant `DfsInv`, `Lemmas/TopoCycles.lean`);
+* completeness (`←`, `find_cycles_complete`): every node on a cycle is reported
+  (the DFS from that node ends with an empty stack within the model's fuel, and
+  the "finished nodes" invariant `CInv`, `Lemmas/TopoCyclesComplete.lean`). -/
+
+/-- **find_cycles_exact_partial** (soundness half of exactness) -/
+theorem find_cycles_exact_partial (ts : List Edge) (x : Node) (h : x ∈ findCycles ts) :
+    OnCycle ts x := by
+  unfold findCycles at h
+  rw [List.mem_eraseDups] at h
+  exact findCycles_sound_aux _ _ _ (by simp) x h
+
+theorem Path.snoc {R : Node → Node → Prop} {a b c : Node} (p : Path R a b) (e : R b c) :
+    Path R a c := by
+  induction p with
+  | single r => exact .cons r (.single e)
+  | cons r _ ih => exact .cons r (ih e)
+
+/-- `OnCycle` is the same notion as a non-empty closed `Path` -/
+theorem onCycle_path (ts : List Edge) (x : Node) (h : OnCycle ts x) :
+    Path (fun a b => (a, b) ∈ ts) x x := by
+  obtain ⟨y, hxy, hr⟩ := h
+  have key : ∀ {a b : Node}, Reach ts a b → ∀ {c : Node}, Path (fun a b => (a, b) ∈ ts) c a →
+      Path (fun a b => (a, b) ∈ ts) c b := by
+    intro a b hab
+    induction hab with
+    | refl => intro c p; exact p
+    | tail _ e ih => intro c p; exact (ih p).snoc e
+  exact key hr (.single hxy)
+
+/-- **find_cycles_complete** (completeness half of exactness): every node that
+    lies on a directed cycle of the dependency pairs is reported. -/
+theorem find_cycles_complete (ts : List Edge) (x : Node) (h : OnCycle ts x) :
+    x ∈ findCycles ts :=
+  findCycles_complete x h
+
+/-- **find_cycles_exact**: `find_cycles` reports exactly the nodes on a cycle. -/
+theorem find_cycles_exact (ts : List Edge) (x : Node) :
+    x ∈ findCycles ts ↔ OnCycle ts x :=
+  ⟨find_cycles_exact_partial ts x, find_cycles_complete ts x⟩
+
 /-! ## non-vacuity -/
 example : sort [(2, 1), (3, 2)] [1, 2, 3] = some [3, 2, 1] := by decide
 example : sort [(2, 1), (1, 2)] [1, 2, 3] = none := by decide
+example : HasCycle [(2, 1), (1, 2)] [1, 2, 3] :=
+  ⟨1, .cons (b := 2) ⟨by decide, by decide, by decide⟩ (.single ⟨by decide, by decide, by decide⟩)⟩
 example : sortAsSubsets [(1, 2)] [4, 1, 2, 3] = some [[4, 1, 3], [2]] := by decide
+example : 2 ∈ findCycles [(1, 2), (2, 1), (2, 3), (3, 3)] := by decide
+/-- the hypothesis of `find_cycles_complete` is satisfiable, and the conclusion is
+    not trivially true: node 4 (only reachable from the cycles) is not reported -/
+example : OnCycle [(1, 2), (2, 1), (2, 3), (3, 3), (3, 4)] 1 :=
+  ⟨2, by decide, .tail (.refl _) (by decide)⟩
+example : 1 ∈ findCycles [(1, 2), (2, 1), (2, 3), (3, 3), (3, 4)] :=
+  find_cycles_complete _ _ ⟨2, by decide, .tail (.refl _) (by decide)⟩
+example : 4 ∉ findCycles [(1, 2), (2, 1), (2, 3), (3, 3), (3, 4)] := by decide
+example : ¬ OnCycle [(1, 2), (2, 1), (2, 3), (3, 3), (3, 4)] 4 :=
+  fun h => absurd ((find_cycles_exact _ _).2 h) (by decide)
 
 end SaVerif.Props.C19
